@@ -5,3 +5,9 @@ import "testing"
 
 // TestCase runs the case named by VERIF_CASE and writes the outcome to VERIF_OUT.
 func TestCase(t *testing.T) { Main(t) }
+
+// TestDiffLaw is the pure side-oracle of C16: FuncLocationsDiff(l, r) is nil
+// iff l == r, and otherwise its lines without "+ " entries give l and its
+// lines without "- " entries give r. Exhaustive over all pairs of lists of
+// length <= 5 over a 3-letter alphabet.
+func TestDiffLaw(t *testing.T) { diffLaw(t) }
